@@ -277,7 +277,10 @@ func genRedirTarget(r *Rng) string {
 	h := hosts[r.Intn(len(hosts))]
 	paths := []string{"", "/", "/x", "/a/b?c=d", "/%2e%2e/", "/#f"}
 	p := paths[r.Intn(len(paths))]
-	switch r.Intn(20) {
+	switch r.Intn(22) {
+	case 20, 21: // absolute URLs that name the site itself, with paths that are off-site targets in their own right
+		tail := []string{"//" + h + p, "/\\" + h + p, "/" + p, "/%2F" + h, "//" + h + "/..", "/\t/" + h}[r.Intn(6)]
+		return []string{"https://site.example", "http://site.example", "HTTPS://SITE.EXAMPLE", "//site.example", "https://site.example:443"}[r.Intn(5)] + tail
 	case 0, 1, 2, 3: // benign local targets
 		return []string{"/dashboard", "/after/login?x=1", "/a/b/c", "/p?next=%2Fq", "/with space", "/ünï", "relative/path", "?only=query", "/a//b"}[r.Intn(9)]
 	case 4:
